@@ -19,6 +19,7 @@ static pthread_mutex_t verif_mtx   = PTHREAD_MUTEX_INITIALIZER;
 static FILE           *verif_file  = NULL;
 static int             verif_state = 0; // 0 unknown, 1 file, 2 off
 static unsigned long   verif_seq   = 0;
+static int             verif_skip_init = 0;
 static const char     *verif_skip  = NULL; // NNG_VERIF_TRACE_SKIP: object kinds not to record, e.g. "aio,task"
 static int             verif_tids  = 0;
 static __thread int    verif_tid   = 0;
@@ -45,7 +46,6 @@ nni_verif_tracing(void)
 		pthread_mutex_lock(&verif_mtx);
 		if (verif_state == 0) {
 			const char *name = getenv("NNG_VERIF_TRACE");
-			verif_skip       = getenv("NNG_VERIF_TRACE_SKIP");
 			if ((name != NULL) && (name[0] != '\0') &&
 			    ((verif_file = fopen(name, "a")) != NULL)) {
 				setvbuf(verif_file, NULL, _IOFBF, 1 << 20);
@@ -68,6 +68,11 @@ nni_verif_trace(
 	int     n;
 	va_list ap;
 
+	if (!verif_skip_init) {
+		// (also read when a harness installed a sink)
+		verif_skip      = getenv("NNG_VERIF_TRACE_SKIP");
+		verif_skip_init = 1;
+	}
 	if (verif_skip != NULL) {
 		const char *f = strstr(verif_skip, obj);
 		size_t      k = strlen(obj);
